@@ -152,6 +152,36 @@ func readPaths(text string, delivery int) map[string]string {
 		}
 		return "", fmt.Errorf("no end of input after 100000 paragraphs")
 	})
+	guard("unmarshal-plain-struct-slice", func() (string, error) {
+		// an element type that does NOT embed the raw paragraph: still one element per paragraph, each showing its own
+		// paragraph's values (a paragraph that has none of the members gives a zero element, it does not vanish)
+		type plain struct {
+			A    string `control:"A"`
+			Bc   string `control:"B-c"`
+			Long string `control:"Long-Name9"`
+		}
+		var l []plain
+		if err := control.Unmarshal(&l, rd()); err != nil {
+			return "", err
+		}
+		pr, err := control.NewParagraphReader(rd(), nil)
+		if err != nil {
+			return "", err
+		}
+		ps, err := pr.All()
+		if err != nil {
+			return "", err
+		}
+		if len(l) != len(ps) {
+			return "", fmt.Errorf("%d elements for %d paragraphs", len(l), len(ps))
+		}
+		for i := range l {
+			if l[i].A != ps[i].Values["A"] || l[i].Bc != ps[i].Values["B-c"] || l[i].Long != ps[i].Values["Long-Name9"] {
+				return "", fmt.Errorf("element %d is %+v, its paragraph has A=%q B-c=%q Long-Name9=%q", i, l[i], ps[i].Values["A"], ps[i].Values["B-c"], ps[i].Values["Long-Name9"])
+			}
+		}
+		return canonParas(ps), nil
+	})
 	guard("decoder-loop", func() (string, error) {
 		dec, err := control.NewDecoder(rd(), nil)
 		if err != nil {
